@@ -25,6 +25,11 @@ type BulkElement struct {
 	Action         string `json:"action"`
 	IdempotencyKey string `json:"ik"`
 	Data           any    `json:"data"`
+
+	// parseError is set by the streaming handlers on an element they could not read:
+	// the element is handed to the bulker as a failing one, so that an atomic bulk
+	// is rolled back and the error is reported as a result
+	parseError error
 }
 
 func (b BulkElement) GetAction() string {
